@@ -246,6 +246,8 @@ func (t *twin) queries() {
 				b, e2 := qy.PacketReceipt(cy, rq)
 				cmp("PacketReceipt", "receipt", a, e1, b, e2, nil)
 			}
+		case strings.HasPrefix(key, "relayers") && len(parts) == 1 && len(key) > 8:
+			clients[key[8:]] = true // "relayers"+<chain>: relayers may be registered for a chain without a client
 		case (parts[0] == "clean" || parts[0] == "maxAckSeq" || parts[0] == "nextSequenceSend") && len(parts) == 3:
 			pairs[[2]string{parts[1], parts[2]}] = true
 		}
@@ -393,6 +395,11 @@ func TestC16(t *testing.T) {
 					ef.tree.Add(h)
 					ef.nodes = append(ef.nodes, h)
 				}
+			}
+			// governance registers relayers for a chain whose client does not exist yet (it may be created later)
+			if r := X.GovExec(&clienttypes.MsgRegisterRelayer{Title: "t", Description: "d", ChainName: "futurechain-1",
+				Relayers: []string{X.Relayer.Addr.String(), X.Accounts[1].Addr.String()}, Authority: X.GovAddr}); r.OK() {
+				rec.Count("relayers-registered-ahead-of-client", 1)
 			}
 			c16Twin(w, rng, rec, X, rawTotals, &rawMu, bf, ef)
 		}
